@@ -30,7 +30,7 @@ ASSUMPTIONS = [
 ]
 FUZZ_RUNS = 40000   # thorough tier: libFuzzer runs per campaign of the coverage-guided stage (vf/fuzz.py)
 BUDGET = {
-    "quick": {"examples": 600, "workers": 8, "time_cap": 70},
+    "quick": {"examples": 800, "workers": 8, "time_cap": 70},
     "thorough": {"examples": 25000, "workers": 14, "time_cap": 900},
 }
 RESERVED = set(" &=%+#?/:;@$,!'()*[]")
